@@ -1369,117 +1369,166 @@ func moduleFuncTable(p *Program, v ssa.Value) (*ssa.Global, []*ssa.Function, boo
 	}
 	var fns []*ssa.Function
 	seen := map[*ssa.Function]bool{}
-	for _, fn := range inits {
-		for _, b := range fn.Blocks {
-			for _, ins := range b.Instrs {
-				for _, op := range ins.Operands(nil) {
-					if op == nil || *op == nil {
-						continue
+	okAll := true
+	add := func(f *ssa.Function) {
+		// a method expression or method value: the wrapper go/ssa makes for it
+		// stands for the method it calls
+		if f != nil && fnPkg(f) == nil && f.Synthetic != "" {
+			for _, fb := range f.Blocks {
+				for _, fi := range fb.Instrs {
+					if c2 := callOf(fi); c2 != nil && c2.StaticCallee() != nil {
+						f = c2.StaticCallee()
 					}
-					var f *ssa.Function
-					switch x := (*op).(type) {
-					case *ssa.Function:
-						f = x
+				}
+			}
+		}
+		if f == nil {
+			okAll = false
+			return
+		}
+		if fnPkg(f) == nil || !IsLibPath(fnPkg(f).Pkg.Path()) {
+			if !(f.Parent() != nil && fnPkg(f.Parent()) != nil && IsLibPath(fnPkg(f.Parent()).Pkg.Path())) {
+				okAll = false
+				return
+			}
+		}
+		if !seen[f] {
+			seen[f] = true
+			fns = append(fns, f)
+		}
+	}
+	// entry: one value put into the table (or the value of a function variable)
+	var entry func(v ssa.Value, d int)
+	entry = func(v ssa.Value, d int) {
+		if d > 6 || !okAll {
+			okAll = false
+			return
+		}
+		if ct, ok := v.(*ssa.ChangeType); ok {
+			v = ct.X
+		}
+		switch x := v.(type) {
+		case *ssa.Function:
+			add(x)
+		case *ssa.MakeClosure:
+			f, _ := x.Fn.(*ssa.Function)
+			add(f)
+		case *ssa.Const:
+			if !x.IsNil() {
+				if _, isFn := x.Type().Underlying().(*types.Signature); isFn {
+					okAll = false
+				}
+			}
+		case *ssa.Call:
+			// a function of the module that hands back a closure of its own
+			h := x.Call.StaticCallee()
+			if h == nil || fnPkg(h) == nil || !IsLibPath(fnPkg(h).Pkg.Path()) {
+				okAll = false
+				return
+			}
+			n := 0
+			for _, hb := range h.Blocks {
+				if ret, ok := terminator(hb).(*ssa.Return); ok && len(ret.Results) == 1 {
+					n++
+					rv := ret.Results[0]
+					if ct, ok := rv.(*ssa.ChangeType); ok {
+						rv = ct.X
+					}
+					switch y := rv.(type) {
 					case *ssa.MakeClosure:
-						f, _ = x.Fn.(*ssa.Function)
+						f, _ := y.Fn.(*ssa.Function)
+						add(f)
+					case *ssa.Function:
+						add(y)
 					default:
-						continue
+						okAll = false
 					}
-					if cc := callOf(ins); cc != nil && cc.Value == *op {
-						continue // called, not stored
-					}
-					// a method expression or method value: the wrapper go/ssa
-					// makes for it stands for the method it calls
-					if f != nil && fnPkg(f) == nil && f.Synthetic != "" {
-						for _, fb := range f.Blocks {
-							for _, fi := range fb.Instrs {
-								if c2 := callOf(fi); c2 != nil && c2.StaticCallee() != nil {
-									f = c2.StaticCallee()
-								}
+				}
+			}
+			if n == 0 {
+				okAll = false
+			}
+		case *ssa.UnOp:
+			// a struct holding functions, built in place
+			al, isAl := x.X.(*ssa.Alloc)
+			if !isAl || x.Op != token.MUL {
+				okAll = false
+				return
+			}
+			for _, ref := range *al.Referrers() {
+				if fa, ok := ref.(*ssa.FieldAddr); ok {
+					for _, r2 := range *fa.Referrers() {
+						if st, ok := r2.(*ssa.Store); ok && st.Addr == ssa.Value(fa) {
+							if _, isFn := st.Val.Type().Underlying().(*types.Signature); isFn {
+								entry(st.Val, d+1)
 							}
 						}
 					}
-					if f == nil || fnPkg(f) == nil || !IsLibPath(fnPkg(f).Pkg.Path()) {
-						if f != nil && f.Parent() != nil && fnPkg(f.Parent()) != nil && IsLibPath(fnPkg(f.Parent()).Pkg.Path()) {
-							// a closure of a module function
-						} else {
-							return nil, nil, false
+				}
+			}
+		default:
+			if _, isFn := v.Type().Underlying().(*types.Signature); isFn {
+				okAll = false
+			}
+		}
+	}
+	holdsFuncs := func(t types.Type) bool {
+		switch u := t.Underlying().(type) {
+		case *types.Signature:
+			return true
+		case *types.Struct:
+			for i := 0; i < u.NumFields(); i++ {
+				if _, isFn := u.Field(i).Type().Underlying().(*types.Signature); isFn {
+					return true
+				}
+			}
+		}
+		return false
+	}
+	for _, fn := range inits {
+		containers := map[ssa.Value]bool{}
+		for _, b := range fn.Blocks {
+			for _, ins := range b.Instrs {
+				if st, ok := ins.(*ssa.Store); ok && st.Addr == ssa.Value(g) {
+					switch st.Val.(type) {
+					case *ssa.MakeMap, *ssa.Slice, *ssa.MakeSlice:
+						containers[st.Val] = true
+						if sl, ok := st.Val.(*ssa.Slice); ok {
+							containers[sl.X] = true
 						}
+					default:
+						entry(st.Val, 0)
 					}
-					if !seen[f] {
-						seen[f] = true
-						fns = append(fns, f)
+				}
+			}
+		}
+		for _, b := range fn.Blocks {
+			for _, ins := range b.Instrs {
+				switch x := ins.(type) {
+				case *ssa.MapUpdate:
+					isG := containers[x.Map]
+					if ld, ok := x.Map.(*ssa.UnOp); ok && ld.X == ssa.Value(g) {
+						isG = true
+					}
+					if isG && holdsFuncs(x.Value.Type()) {
+						entry(x.Value, 0)
+					}
+				case *ssa.Store:
+					if ia, ok := x.Addr.(*ssa.IndexAddr); ok {
+						isG := containers[ia.X] || ia.X == ssa.Value(g)
+						if ld, ok := ia.X.(*ssa.UnOp); ok && ld.X == ssa.Value(g) {
+							isG = true
+						}
+						if isG && holdsFuncs(x.Val.Type()) {
+							entry(x.Val, 0)
+						}
 					}
 				}
 			}
 		}
 	}
-	// function values that are stored and are neither a function nor a closure
-	// written in place: the result of a module function that hands back a
-	// closure of its own is fine, anything else cannot be enumerated
-	for _, fn := range inits {
-		for _, b := range fn.Blocks {
-			for _, ins := range b.Instrs {
-				var val ssa.Value
-				switch x := ins.(type) {
-				case *ssa.MapUpdate:
-					val = x.Value
-				case *ssa.Store:
-					val = x.Val
-				default:
-					continue
-				}
-				for {
-					if ct, ok := val.(*ssa.ChangeType); ok {
-						val = ct.X
-						continue
-					}
-					break
-				}
-				if _, isFn := val.Type().Underlying().(*types.Signature); !isFn {
-					continue
-				}
-				switch x := val.(type) {
-				case *ssa.Function, *ssa.MakeClosure:
-				case *ssa.Const:
-					if !x.IsNil() {
-						return nil, nil, false
-					}
-				case *ssa.Call:
-					h := x.Call.StaticCallee()
-					if h == nil || fnPkg(h) == nil || !IsLibPath(fnPkg(h).Pkg.Path()) {
-						return nil, nil, false
-					}
-					for _, hb := range h.Blocks {
-						if ret, ok := terminator(hb).(*ssa.Return); ok && len(ret.Results) == 1 {
-							rv := ret.Results[0]
-							if ct, ok := rv.(*ssa.ChangeType); ok {
-								rv = ct.X
-							}
-							switch y := rv.(type) {
-							case *ssa.MakeClosure:
-								if f, ok := y.Fn.(*ssa.Function); ok && !seen[f] {
-									seen[f] = true
-									fns = append(fns, f)
-								}
-							case *ssa.Function:
-								if fnPkg(y) == nil || !IsLibPath(fnPkg(y).Pkg.Path()) {
-									return nil, nil, false
-								}
-								if !seen[y] {
-									seen[y] = true
-									fns = append(fns, y)
-								}
-							default:
-								return nil, nil, false
-							}
-						}
-					}
-				default:
-					return nil, nil, false
-				}
-			}
-		}
+	if !okAll {
+		return nil, nil, false
 	}
 	return g, fns, len(fns) > 0
 }
@@ -1538,10 +1587,35 @@ func listElems(v ssa.Value) ([]ssa.Value, bool) {
 		case *ssa.UnOp:
 			if al, isAl := x.X.(*ssa.Alloc); isAl && x.Op == token.MUL {
 				for _, ref := range *al.Referrers() {
-					if st, isSt := ref.(*ssa.Store); isSt && st.Addr == ssa.Value(al) {
-						walk(st.Val, d+1)
+					switch y := ref.(type) {
+					case *ssa.Store:
+						if y.Addr == ssa.Value(al) {
+							walk(y.Val, d+1)
+						}
+					case *ssa.MakeClosure:
+						// the variable is captured: what the closure stores into it
+						cf, isFn := y.Fn.(*ssa.Function)
+						if !isFn {
+							ok = false
+							continue
+						}
+						for i, bnd := range y.Bindings {
+							if bnd != ssa.Value(al) || i >= len(cf.FreeVars) {
+								continue
+							}
+							fv := cf.FreeVars[i]
+							for _, r2 := range *fv.Referrers() {
+								if st, isSt := r2.(*ssa.Store); isSt && st.Addr == ssa.Value(fv) {
+									walk(st.Val, d+1)
+								}
+							}
+						}
 					}
 				}
+				return
+			}
+			// the captured variable read inside the closure: the same list
+			if _, isFV := x.X.(*ssa.FreeVar); isFV && x.Op == token.MUL {
 				return
 			}
 			ok = false
@@ -1570,6 +1644,22 @@ func localSources(v ssa.Value) ([]ssa.Value, bool) {
 		ld, ok := e.(*ssa.UnOp)
 		if !ok || ld.Op != token.MUL {
 			return nil, false
+		}
+		if ia, isIA := ld.X.(*ssa.IndexAddr); isIA {
+			// an element of a list built in the function: each value put there
+			elems, ok := listElems(ia.X)
+			if !ok {
+				return nil, false
+			}
+			var out []ssa.Value
+			for _, el := range elems {
+				vs, ok := project(el, path, d+1)
+				if !ok {
+					return nil, false
+				}
+				out = append(out, vs...)
+			}
+			return out, len(out) > 0
 		}
 		al, ok := ld.X.(*ssa.Alloc)
 		if !ok {
@@ -1660,4 +1750,59 @@ func localSources(v ssa.Value) ([]ssa.Value, bool) {
 		return nil, false
 	}
 	return resolve(v, nil, 0)
+}
+
+// funcTableEntries: the functions a package-level map with string keys holds,
+// by key, as its initialisation stores them.
+func funcTableEntries(p *Program, g *ssa.Global) map[string]*ssa.Function {
+	out := map[string]*ssa.Function{}
+	var fns []*ssa.Function
+	if pi := g.Pkg.Func("init"); pi != nil {
+		fns = append(fns, pi)
+	}
+	for _, fn := range p.Fns {
+		if fn.Pkg == g.Pkg && strings.HasPrefix(fn.Name(), "init#") {
+			fns = append(fns, fn)
+		}
+	}
+	for _, fn := range fns {
+		// the map built for g: the MakeMap stored into it
+		maps := map[ssa.Value]bool{}
+		for _, b := range fn.Blocks {
+			for _, ins := range b.Instrs {
+				if st, ok := ins.(*ssa.Store); ok && st.Addr == ssa.Value(g) {
+					maps[st.Val] = true
+				}
+			}
+		}
+		for _, b := range fn.Blocks {
+			for _, ins := range b.Instrs {
+				mu, ok := ins.(*ssa.MapUpdate)
+				if !ok {
+					continue
+				}
+				isG := maps[mu.Map]
+				if ld, ok := mu.Map.(*ssa.UnOp); ok && ld.X == ssa.Value(g) {
+					isG = true
+				}
+				k, isK := mu.Key.(*ssa.Const)
+				if !isG || !isK || k.Value == nil || k.Value.Kind() != constant.String {
+					continue
+				}
+				v := mu.Value
+				if ct, ok := v.(*ssa.ChangeType); ok {
+					v = ct.X
+				}
+				switch x := v.(type) {
+				case *ssa.Function:
+					out[constant.StringVal(k.Value)] = x
+				case *ssa.MakeClosure:
+					if f, ok := x.Fn.(*ssa.Function); ok {
+						out[constant.StringVal(k.Value)] = f
+					}
+				}
+			}
+		}
+	}
+	return out
 }
